@@ -162,6 +162,13 @@ def main():
     for name in ('index.py', 'moduleIndex.py', 'classIndex.py', 'nameIndex.py', 'undoccedSummary.py', 'all-documents.py'):
         cases.append({'files': [[name, 'class K:\n    """doc"""\n']], 'docformat': 'epytext', 'single_root_named_like_page': True})
     cases.append({'files': [['empty.py', '']], 'docformat': 'epytext'})
+    # valid but unusual class bodies (each once aborted the builder or is a near miss of such a case)
+    cases.append({'files': [['rewrap.py', 'class C:\n    @staticmethod\n    def f(): pass\n    f = staticmethod(f)\n'
+                                          '    @classmethod\n    def g(cls): pass\n    g = classmethod(g)\n    g = staticmethod(g)\n'
+                                          '    def h(self): pass\n    h = staticmethod(h)\n    h = classmethod(h)\n'
+                                          '    @property\n    def p(self): return 1\n    """string after property"""\n'
+                                          '    def m(self):\n        self.p = 2\n        self.f = 3\n'
+                                          'f = staticmethod(len)\n']], 'docformat': 'epytext'})
     # every object hidden (nothing to index)
     cases.append({'files': [['solo.py', 'class K:\n    """doc"""\n']], 'docformat': 'epytext', 'args': ['--privacy=HIDDEN:solo'],
                   'tag': 'all_hidden'})
